@@ -255,7 +255,9 @@ for _s, _seeds in (("featns", "SeedsFeatNs"), ("feat13", "SeedsFeatSeg")):
     _d = _copy.deepcopy(SUITES[_s])
     _d["cfg"]["name"] = _s + "_s"
     _d["seeds"] = _seeds
-    _d["depth"] = {"quick": 1, "thorough": 2}
+    # (depth 0 in the quick tier: the model of EDITS made while the track-id feature is switched off is not precise -
+    #  refinement drift, no property involved - so the stale seeds themselves are the states used)
+    _d["depth"] = {"quick": 0, "thorough": 1}
     _d["design_depth"] = {"quick": 0, "thorough": 1}
     _d["design_inv"] = ["Inv_C10"]
     _d.pop("sample", None)
